@@ -232,6 +232,17 @@ func (g *G) assign(depth int) string {
 		return g.act(g.ident() + " = " + g.expr(depth+1))
 	case 2:
 		g.kind("let-multi")
+		if g.n(0, 3, "wideAssign") == 0 {
+			// 3-9 targets and as many values
+			k := g.n(3, 9, "assignWidth")
+			var l, r []string
+			for i := 0; i < k; i++ {
+				l = append(l, g.ident())
+				r = append(r, g.operand(depth+2))
+			}
+			g.kind("let-multi-wide")
+			return g.act(strings.Join(l, ", ") + g.pick("wideop", " := ", " = ") + strings.Join(r, ", "))
+		}
 		return g.act(g.ident() + ", " + g.ident() + " := " + g.expr(depth+1) + ", " + g.expr(depth+1))
 	case 3:
 		g.kind("let-lookup")
